@@ -400,7 +400,7 @@ Definition empty_key_guard (cfg : fscfg) (k : key) : bool :=
 
 (* GetStream = os.OpenFile(pathForKey(key), O_RDONLY); the reader is drained by the caller *)
 Definition fs_open (cfg : fscfg) (f : fs) (k : key) : option (res errno node * list ev) :=
-  if empty_key_guard cfg k then Some (Err ENOENT, []) else
+  if empty_key_guard cfg k then Some (Err E404, []) else   (* repaired tree: os.ErrNotExist, no system call *)
   match path_for_key cfg k with
   | None => None
   | Some p =>
